@@ -14,6 +14,6 @@ echo "--- demo with the change"; PYTHONPATH=$EV /venv/bin/python $DEMO 2>&1 | ta
 cd /verif
 for P in $PID "$@"; do
   echo "--- ./check $P --tier $TIER on the changed tree"
-  ALGOPY_REPO=$EV ./check $P --tier $TIER 2>&1 | grep -E "VIOLATION|KNOWN|UNDECIDED|CRASH|tier=" | cut -c1-400 | head -12
+  VERIF_EVIDENCE_DIR=/tmp/ev_evidence_$$ ALGOPY_REPO=$EV ./check $P --tier $TIER 2>&1 | grep -E "VIOLATION|KNOWN|UNDECIDED|CRASH|tier=" | cut -c1-400 | head -12
 done
-git -C /repo worktree remove --force $EV; rm -rf $EV
+git -C /repo worktree remove --force $EV; rm -rf $EV /tmp/ev_evidence_$$
